@@ -10,9 +10,10 @@ wt=/tmp/confirm-$id
 git -C /repo worktree remove --force $wt 2>/dev/null
 git -C /repo worktree add -q --detach $wt HEAD || exit 2
 trap 'git -C /repo worktree remove --force '$wt' 2>/dev/null' EXIT
-demo=$(python3 -c "import json;print(json.load(open('$out/meta.json'))['demo_path'])")
+demo=$(python3 -c "import json;print(json.load(open('$out/meta.json'))['demo_path'].split()[0])")
 rawcmd=$(python3 -c "import json;print(json.load(open('$out/meta.json'))['demo_cmd'])")
-src=$(find $out -name "*_test.go" | head -1)
+src=$(find $out -name "$(basename $demo)" | head -1)
+[ -z "$src" ] && src=$(find $out -name "*_test.go" | head -1)
 [ -z "$src" ] && { echo "CONFIRM $id: no demo test file"; exit 1; }
 mkdir -p $wt/$(dirname $demo); cp $src $wt/$demo
 # the command is derived from the demo file itself (the agents' demo_cmd strings carry prose): the tests it
